@@ -157,12 +157,13 @@ Theorem batches_correct v n : 0 <= vlen v <= vcap v -> 0 <= n ->
     Forall clipped cs /\
     (0 < n -> 0 < vlen v -> map vlen cs = batch_lens (vlen v) (Z.min n (vlen v))).
 Proof.
-  intros Hv Hn. unfold batches, ba_neg, ba_zero, ba_over, ba_capped, ba_zero2, ba_hint, ba_i0, ba_size, ba_rem.
+  intros Hv Hn. unfold batches, ba_neg, ba_zero, ba_zero2, ba_hint, ba_i0, ba_size, ba_rem.
   destruct (n <? 0) eqn:E0; zb; [lia|].
   destruct (n =? 0) eqn:E1; zb.
   { exists []. split; [reflexivity|]. split; [cbn; lia|]. split; [lia|]. split; [constructor|]. split; [constructor|lia]. }
-  set (m := if n >? vlen v then vlen v else n).
-  assert (Hm : m = Z.min n (vlen v)) by (unfold m; destruct (n >? vlen v) eqn:E; rewrite Z.gtb_ltb in E; zb; lia).
+  (* the cap: only  m = min n len  is used, so  n > len  and  n >= len  both check *)
+  set (m := if ba_over n (vlen v) then ba_capped (vlen v) else n).
+  assert (Hm : m = Z.min n (vlen v)) by (unfold m, ba_capped; destruct (ba_over n (vlen v)) eqn:E; unfold ba_over in E; zb; lia).
   clearbody m.
   destruct (m =? 0) eqn:E2; zb.
   { exists []. split; [reflexivity|]. split; [cbn; lia|]. split; [intros _; cbn [tiles]; lia|]. split; [constructor|]. split; [constructor|lia]. }
@@ -230,7 +231,11 @@ Proof.
 Qed.
 
 (* Where the strict reading "every chunk has cap = len" fails: the early return hands back vs
-   itself, so a slice with spare capacity comes back with it (for every n = 0 or n >= len). *)
-Theorem chunks_single_keeps_capacity v n : 0 <= n -> ch_single n (vlen v) = true ->
-  chunks v n = Ok [v].
-Proof. intros Hn H. unfold chunks, ch_neg. decide_if. rewrite H. reflexivity. Qed.
+   itself, so a slice with spare capacity comes back with it.  Stated for n = 0 or n > len, which
+   is an early return under both  n >= len  (the pinned code, where n = len returns vs as well) and
+   n > len  (the equivalent variant, where n = len goes through the loop and is clipped). *)
+Theorem chunks_single_keeps_capacity v n : 0 <= n -> n = 0 \/ vlen v < n -> chunks v n = Ok [v].
+Proof.
+  intros Hn H. unfold chunks, ch_neg. decide_if.
+  destruct (ch_single n (vlen v)) eqn:E1; [reflexivity|]. unfold ch_single in E1. zb. lia.
+Qed.
